@@ -74,6 +74,22 @@ def _worker(args):
         mod = __import__(mod_name)
         core.IOFAULT_RUNS.clear()
         r = mod.run_case(seed, i, tier)
+        if any(v.known is None and v.cls != "wall_timeout" for v in r.violations):
+            # A violation must be a function of the case: the whole case is executed once more, one such re-run at a time across
+            # the workers, and only classes seen both times are kept. What this turns away is machine load acting on the parts
+            # that run real and uncontrolled inside a step -- jwalk gives up on a directory walk (empty output, or an abort)
+            # when its rayon pool does not start within a second, which a loaded machine can cause; a deterministic violation
+            # comes back identically. Dropped ones are counted in the evidence (probe violation_not_reproduced_on_rerun).
+            import fcntl
+            os.makedirs(core.scratch_root(), exist_ok=True)
+            with open(os.path.join(core.scratch_root(), ".rerun.lock"), "w") as lk:      # (not core.execute's .retry.lock: that one is taken inside)
+                fcntl.flock(lk, fcntl.LOCK_EX)
+                r2 = mod.run_case(seed, i, tier)
+            again = set(v.cls for v in r2.violations)
+            kept = [v for v in r.violations if v.cls in again or v.cls == "wall_timeout"]
+            if len(kept) != len(r.violations):
+                r.probes["violation_not_reproduced_on_rerun"] += len(r.violations) - len(kept)
+            r.violations = kept
         for (k, v) in core.IOFAULT_RUNS.items():     # runs executed with a write-level fault armed (preload/seed.c)
             if k == "sw":
                 r.faults["short_writes_stdout_stderr_tmp(run)"] += v
